@@ -211,6 +211,12 @@ fn judge(bytes: &[u8], claimed_len: usize, pairs: &[(u32, Vec<u8>)], presorted: 
             other => return Err(format!("view.find({:x}) = {:?}: not a value stored under that tag", t, other)),
         }
     }
+    {
+        // the iterator through every Iterator method a client may call (position-independent: tag, length, first and last byte)
+        let sig = |t: u32, v: &[u8]| (t, v.len(), v.first().copied(), v.last().copied());
+        let want: Vec<_> = sorted.iter().map(|(t, v)| sig(*t, v)).collect();
+        mc_core::iter_battery(|| view.iter().map(|(t, v)| sig(t.value(), v)), &want, "view.iter()")?;
+    }
     let tags: Vec<u32> = view.tags().iter().map(|t| t.value()).collect();
     if tags != sorted.iter().map(|p| p.0).collect::<Vec<_>>() {
         return Err(format!("view.tags() = {:x?}", tags));
